@@ -465,54 +465,13 @@ func extractCFilters(l *leanFile, f *ast.File, shape map[string]any) {
 	shape["cfSteps"], shape["cfGuards"], shape["cfGuardsPure"] = steps, nguards, guardsOK
 	shape["cfCurHeader"], shape["cfPrevHeader"], shape["cfRehashArgs"] = cur, prev, rehash
 
-	// prepareCFiltersQuery: the range arithmetic, textually
-	pq := funcDecl(f, "ChainService", "prepareCFiltersQuery")
-	if pq == nil {
+	// prepareCFiltersQuery: its range arithmetic, the store requests and the index loop are no longer pinned as
+	// statement texts: the function is TRANSLATED (trans.go -> Gen/TransQuery.lean) and Props/C05Trans.lean proves
+	// the translation against the model (C05_trans_*), so the tie rests on what the code computes, not on its spelling.
+	if pq := funcDecl(f, "ChainService", "prepareCFiltersQuery"); pq == nil {
 		fail("query.go: method ChainService.prepareCFiltersQuery")
 		return
 	}
-	var arith []string
-	ast.Inspect(pq.Body, func(n ast.Node) bool {
-		switch v := n.(type) {
-		case *ast.AssignStmt:
-			if len(v.Lhs) == 1 {
-				switch x := src(v.Lhs[0]); x {
-				case "startHeight", "stopHeight", "batchSize", "numFilters":
-					// `x = max(x, b)` is `if x < b { x = b }`, `x = min(x, b)` is `if x > b { x = b }`
-					if c, ok := v.Rhs[0].(*ast.CallExpr); ok && v.Tok == token.ASSIGN && len(c.Args) == 2 &&
-						(src(c.Fun) == "max" || src(c.Fun) == "min") && (src(c.Args[0]) == x) != (src(c.Args[1]) == x) {
-						b := src(c.Args[1])
-						if b == x {
-							b = src(c.Args[0])
-						}
-						op := map[string]string{"max": "<", "min": ">"}[src(c.Fun)]
-						arith = append(arith, "if "+x+" "+op+" "+b, x+" = "+b)
-						break
-					}
-					arith = append(arith, src(v))
-				}
-			}
-		case *ast.IfStmt:
-			c := src(v.Cond)
-			if strings.Contains(c, "startHeight") || strings.Contains(c, "stopHeight") || strings.Contains(c, "maxBatchSize") ||
-				strings.Contains(c, "bestHeight") {
-				arith = append(arith, "if "+c)
-			}
-		case *ast.ForStmt:
-			arith = append(arith, "for "+src(v.Init)+"; "+src(v.Cond))
-		case *ast.CaseClause:
-			var cs []string
-			for _, e := range v.List {
-				cs = append(cs, src(e))
-			}
-			if len(cs) > 0 {
-				arith = append(arith, "case "+strings.Join(cs, ","))
-			}
-		}
-		return true
-	})
-	l.def("prepArith", "List String", lstrs(arith), "prepareCFiltersQuery: assignments to start/stop/batchSize, their guards and the index loop, in source order")
-	shape["prepArith"] = arith
 
 	// GetCFilter: order of the lookups
 	gc := funcDecl(f, "ChainService", "GetCFilter")
